@@ -1,0 +1,5 @@
+//go:build !verif
+
+package ziptree
+
+func verifRank(*Node) {}
